@@ -265,7 +265,7 @@ def cases(tier, seed):
     big = tier == "thorough"
     rnd = random.Random(f"c19:{seed}")
     out = []
-    pairs = [(a, b) for a, b in covers.same_dim_pairs(seed, 40 if big else 10, positive_only=True)]
+    pairs = [(a, b) for a, b in covers.same_dim_pairs(seed, 800 if big else 10, positive_only=True)]
     for u, w in pairs:
         out.append(Case("H19.a", f"constructors:{u},{w}", M, "h_constructors", {"u": u, "u2": w}, validate=1))
         out.append(Case("H19.b", f"convert:{u}->{w}", M, "h_convert", {"u": u, "w": w}, validate=1))
